@@ -29,7 +29,7 @@ func main() {
 	clk.Install()
 	root := rng.New(a.Seed)
 	rep := emit.NewReport("C16", a.Seed, a.Tier)
-	rep.Rule = "1-3 custom chains per case built by inserting 0-2 prepare, 0-5 rule-check, 0-3 recording statistic slots (+ node-prepare wrapper, + the real stat.DefaultSlot) in random order with order values from {0,1,2,999,1000,1001,2^32-1} (collisions frequent); each slot's behaviour (ok/nil/wait/block with random error fields/panic) selected by the request flag; 8-41 operations (Entry on 1-3 resources with batch/args/traffic type/chain, Exit with and without error incl. repeated, late and void ones, TraceError, TraceCallee, WhenExit handlers that return errors or panic, clock ticks, snapshots) followed by an exit of every entry. Non-trivial = the case contains at least one blocked outcome, one admitted outcome and one slot panic during Entry; distinct by full input."
+	rep.Rule = "1-3 custom chains per case built by inserting 0-2 prepare, 0-5 rule-check, 0-3 recording statistic slots (+ node-prepare wrapper, + the real stat.DefaultSlot) in random order with order values from {0,1,2,999,1000,1001,2^32-1} (collisions frequent); 1 chain in 7 is long: 13-24 slots of at least one kind over 2-4 distinct order values (an unstable sort differs from sort.SliceStable only beyond 12 elements); each slot's behaviour (ok/nil/wait/block with random error fields/panic) selected by the request flag; 8-41 operations (Entry on 1-3 resources with batch/args/traffic type/chain, Exit with and without error incl. repeated, late and void ones, TraceError, TraceCallee, WhenExit handlers that return errors or panic, clock ticks, snapshots) followed by an exit of every entry. Non-trivial = the case contains at least one blocked outcome, one admitted outcome and one slot panic during Entry; distinct by full input."
 	nCorr := a.Pick(a.N, 160, 3000)
 	nMon := a.Pick(a.Mon, 3000, 60000)
 	if a.Search {
